@@ -46,7 +46,7 @@ UF = {"add": 0, "multiply": 1, "minimum": 2, "maximum": 3, "logical_or": 4, "log
       "bitwise_or": 6, "bitwise_and": 7, "bitwise_xor": 8}
 METHOD = {"add": "sum", "multiply": "prod", "minimum": "min", "maximum": "max", "logical_or": "any",
           "logical_and": "all"}
-CLAUSE = {3: "reduced_extents_positive", 4: "idx_dtype_holds_nnz", 5: "gcxs_axes_not_permuted_full",
+CLAUSE = {3: "reduced_extents_positive", 5: "gcxs_axes_not_permuted_full",
           11: "gcxs_axes_nonempty", 12: "gcxs_axes_distinct"}
 NARROW = {"int8": (8, True), "uint8": (8, False), "int16": (16, True), "uint16": (16, False),
           "int32": (32, True), "uint32": (32, False)}
@@ -513,7 +513,7 @@ def campaign(build, tier, seed, report, budget=1):
         if sp["format"] != "coo":
             gd = None
         npout = r.get("np") if isinstance(r, dict) and "np" in r else {"k": "other"}
-        lits.append(vpair(vZ(UF[c["uf"]]), inp, axis_lit(c["axis"]), vlib.vbool(c["keepdims"]), w_lit(gd),
+        lits.append(vpair(vZ(UF[c["uf"]]), inp, axis_lit(c["axis"]), vlib.vbool(c["keepdims"]),
                           vlib.sarr_lit(out), vlib.sarr_lit(npout)))
         # python-side tags
         ndim = len(sp["shape"])
@@ -581,7 +581,7 @@ def campaign(build, tier, seed, report, budget=1):
                                    "uf": call["uf"]}, call["out"]))
     for _src, c, out in kinfo:
         o = "None" if out is None else f"(Some ({vlist(out[0])}, {vlist(out[1])}, {vlist(out[2])}))"
-        klits.append(vpair(w_lit(c["gdtype"]), vlist(c["groups"]), vlist(c["data"]), vZ(UF[c["uf"]]), o))
+        klits.append(vpair(vlist(c["groups"]), vlist(c["data"]), vZ(UF[c["uf"]]), o))
     kbad = build.judge("c03_kernel", imp, "kcase", "judge_kernel", klits, chunk=300, timeout=600)
     for i, code in kbad:
         src, c, out = kinfo[i]
